@@ -766,19 +766,10 @@ func (s *vgcState) canon(kind string, errGC bool) string {
 	return out
 }
 
-// equalContent: same blobs, same top-level entries, same resolvable digests among those that have a blob (a child
-// entry whose blob is missing answers 404 whether it is listed or not; C06.gc_idempotent is stated the same way)
+// equalContent: same blobs, same top-level entries, same resolvable digests (since F41 a pass leaves no child record
+// without a blob, so the child records take part in full; C06.gc_idempotent is stated the same way)
 func (s *vgcState) equalContent(o *vgcState) bool {
-	strip := func(x *vgcState) *vgcState {
-		y := &vgcState{blobs: x.blobs, ents: x.ents}
-		for _, c := range x.found {
-			if x.exists(c[0]) {
-				y.found = append(y.found, c)
-			}
-		}
-		return y
-	}
-	return strip(s).canon("mem", false) == strip(o).canon("mem", false)
+	return s.canon("mem", false) == o.canon("mem", false)
 }
 
 // vgcOrderDependent: the outcome of a collection on this state may depend on the order of the index entries: two
@@ -915,6 +906,19 @@ func (h *vgcH) gcOp() string {
 			if e.dig != 0 && !post.exists(e.dig) {
 				h.flag("index-entry-without-blob", fmt.Sprintf("entry %s has no blob after the collection", e))
 				break
+			}
+		}
+		// a digest the index resolves (top-level entry or child record) has a blob
+		for _, c := range post.found {
+			if !post.exists(c[0]) {
+				top := false
+				for _, e := range post.ents {
+					top = top || e.dig == c[0]
+				}
+				if !top {
+					h.flag("child-record-without-blob", fmt.Sprintf("child record %d has no blob after the collection", c[0]))
+					break
+				}
 			}
 		}
 		if sp.shapeOK && p.clear() && errGC == nil {
